@@ -7,6 +7,7 @@
    the look-back length and the default window are read from Generated/SentenceFacts.v on every run. *)
 From Coq Require Import List NArith ZArith Bool Arith.
 From SudachiVerif Require Generated.SentenceFacts.
+From SudachiVerif Require Export Model.SentenceRegex.
 Import ListNotations.
 
 Module F := Generated.SentenceFacts.
@@ -38,13 +39,7 @@ Fixpoint split_bytes (b : nat) (t : text) : option (text * text) :=
   end.
 
 (* ---------- character classes (regex [...] over the generated range lists) ---------- *)
-(* a class is (single code points, proper ranges) *)
-Definition cls := (list N * list (N * N))%type.
-Definition in_list (l : list N) (c : N) : bool := existsb (N.eqb c) l.
-Definition in_range (c : N) (r : N * N) : bool := if (fst r <=? c)%N then (c <=? snd r)%N else false.
-Definition in_ranges (k : cls) (c : N) : bool :=
-  if in_list (fst k) c then true else existsb (in_range c) (snd k).
-
+(* classes: cls, in_list, in_range, in_ranges come from Model/SentenceRegex.v *)
 Definition is_period : N -> bool := in_ranges F.PERIODS.
 Definition is_dot : N -> bool := in_ranges F.DOT.
 Definition is_comma : N -> bool := in_ranges F.COMMA.
@@ -56,10 +51,7 @@ Definition is_cdot (c : N) : bool := (c =? F.CDOT)%N.
 Definition is_more (c : N) : bool := is_dot c || is_period c.
 (* PROHIBITED_BOS: [CLOSE COMMA PERIODS] *)
 Definition is_prohibited (c : N) : bool := is_close c || is_comma c || is_period c.
-(* \s of the regex crate = Unicode White_Space *)
-Definition WS : cls :=
-  ([ 32; 133; 160; 5760; 8239; 8287; 12288 ]%N, [ (9, 13); (8192, 8202); (8232, 8233) ]%N).
-Definition is_ws : N -> bool := in_ranges WS.
+(* \s (is_ws, Unicode White_Space) comes from Model/SentenceRegex.v *)
 
 (* length of the longest prefix whose characters satisfy p  (greedy X* / X+ with nothing to give back) *)
 Fixpoint span (p : N -> bool) (t : text) : nat :=
@@ -206,13 +198,28 @@ Fixpoint last2 (a : option N) (t : text) : option (option N * N) :=
   | c :: r => match r with [] => Some (a, c) | _ => last2 (Some c) r end
   end.
 
+(* QUOTE_MARKER.find(&s[eos - last_char_len ..]) with mat.start() == 0: l = last character before eos, rest = s[eos..] *)
+Definition quote_at (l : N) (rest : text) : bool :=
+  (in_list F.QUOTE_FIRST l || is_close l) && existsb (fun w => starts_with w rest) F.QUOTE_SECOND.
+
+(* EOS_ITEMIZE_HEADER.is_match(t): t ends with an alphanumeric followed by a dot *)
+Fixpoint ends_an_dot (t : text) : bool :=
+  match t with
+  | a :: tl =>
+      match tl with
+      | d :: tl' => match tl' with [] => is_an a && is_dot d | _ :: _ => ends_an_dot tl end
+      | [] => false
+      end
+  | [] => false
+  end.
+
 (* is_continuous_phrase(s, eos) for 0 < eos < |s| *)
 Definition continuous (s : text) (eos : nat) : bool :=
   let rest := skipn eos s in
   match last2 None (firstn eos s), rest with
-  | Some (before, l), c :: _ =>
-      if (in_list F.QUOTE_FIRST l || is_close l) && existsb (fun w => starts_with w rest) F.QUOTE_SECOND then true
-      else in_list F.ITEM_FOLLOW c && match before with Some a => is_an a && is_dot l | None => false end
+  | Some (_, l), c :: _ =>
+      if quote_at l rest then true
+      else in_list F.ITEM_FOLLOW c && ends_an_dot (firstn eos s)
   | _, _ => false
   end.
 
@@ -418,4 +425,18 @@ Definition check_case (data : text) (limit : N) (lex : option (list text)) (out 
       && tiles_b 0 data rs
       && (length rs <=? length data)
       && sentences_ok ck data rs
+  end.
+
+(* a case of the command-line tool: one input line, the window of SentenceSplitter::new(), the dictionary words of the
+   line as lexicon, the byte ranges of the sentences visible in the tool's output (None = they do not add up to the line) *)
+Definition check_split (data : text) (limit : N) (lex : option (list text)) (out : option (list (N * N))) : bool :=
+  let ck : checker := option_map lookup_lex lex in
+  let lim := N.to_nat limit in
+  match out with
+  | None => false
+  | Some ranges =>
+      let rs := map (fun p => (N.to_nat (fst p), N.to_nat (snd p))) ranges in
+      match res_ranges (split lim ck data) with Some m => ranges_eqb m rs | None => false end
+      && tiles_b 0 data rs
+      && (length rs <=? length data)
   end.
